@@ -93,6 +93,13 @@ s_filterc = z3.Function("s_filterc", smt.Ref, RS, RS)  # keep rows a callable ac
 denotes_x = z3.Function("denotes_x", smt.Ref, smt.Ref, smt.BoolS)  # callable computes exactly this expression on every row
 denotes_p = z3.Function("denotes_p", smt.Ref, smt.Ref, smt.BoolS)
 
+# row-at-a-time view (generator bodies of the RowIterable classes); meaning: lean/RelAlg/Spec.lean, laws: spec/laws.py
+rsnoc = z3.Function("rsnoc", RS, Row, RS)  # X ++ [r]
+rprefix = z3.Function("rprefix", RS, smt.IntS, RS)  # the first i rows
+row_put = z3.Function("row_put", Row, smt.Tag, smt.IntS, Row)  # {**r, t: v}
+row_mask = z3.Function("row_mask", smt.TagSet, Row, Row)  # r restricted to a column set
+capp = z3.Function("capp", smt.Ref, Row, smt.IntS)  # value a callable returns on a row (truthiness: != 0)
+
 sem = z3.Function("sem", smt.Ref, RS, RS)  # unary operation applied to a row sequence
 bsem = z3.Function("bsem", smt.Ref, RS, RS, RS)  # binary operation
 
